@@ -1,5 +1,6 @@
 """C16 — built-in helper functions and aliases keep their documented pointwise meaning."""
 import math
+import operator
 from fractions import Fraction
 
 import numpy as np
@@ -36,6 +37,17 @@ ASSUMPTIONS = [
     "float columns); offsets over integer typed columns, integer-valued expressions and calls "
     "(offset(n), offset(n * 2), offset(s + n), offset(np.abs(kz)), ...); the column must hold the "
     "values of the new frame (expected vector = the argument's arithmetic on the frame's columns)",
+    "comparisons inside I(...) / {...} / offset(...): every comparison operator (<, <=, >, >=, ==, !=) "
+    "between a numeric column (float x, z; int64 k, kz, n, s) and a literal threshold that is a value of "
+    "that column in the training frame or in the new frame (so rows sit exactly on it; sometimes a "
+    "threshold between two values), as the whole argument and as a 0/1 factor of a product "
+    "((v >= t) * w); the column (read by position, the term's label does not matter) must hold the "
+    "values of Python's operator on the frame's columns, at training time and on the new frames "
+    "(driver op c16_column)",
+    "binary on int64 identifier columns whose values lie beyond 2**53 (not all of them binary64 "
+    "numbers; positive and negative; neighbours that differ by 1), the success value omitted or written "
+    "in the formula as an integer literal: equal to a value of the column, or absent but next to one; "
+    "the values reach Spec.C16.binaryExpected as exact integers, the column is read by position",
     "prop at prediction: response.evaluate_new_data is judged (driver op c16_column: the trials of "
     "every row of the new frame, a constant broadcast to its row count) on the new frame as drawn and "
     "on the same rows with the successes column missing in some or all rows (float NaN, nullable Int64 "
@@ -211,6 +223,69 @@ def close_float_columns(r, n):
     return cols, cases
 
 
+COMPARISONS = (("<", operator.lt), ("<=", operator.le), (">", operator.gt), (">=", operator.ge),
+               ("==", operator.eq), ("!=", operator.ne))
+# (spelling, is the comparison multiplied by a second column)
+COMPARISON_FORMS = (("I({c})", False), ("{{{c}}}", False), ("offset({c})", False),
+                    ("I(({c}) * {w})", True), ("offset(({c}) * {w})", True), ("{{({c}) * {w}}}", True))
+COMPARISON_VARS = ("x", "z", "k", "kz", "n", "s")
+
+
+def num_lit(v):
+    """a number of a frame as the formula writes it (ints as ints, floats with their decimals)"""
+    v = v.item() if hasattr(v, "item") else v
+    return str(int(v)) if isinstance(v, int) else repr(float(v))
+
+
+def comparison_cases(r, fi, df, nd, per_op):
+    """-> [(argument, expected(frame) -> values, description)]: every comparison operator against a
+    threshold that rows of the training frame / of the new frame sit on (one in five: such a value
+    plus 0.5), in every spelling of COMPARISON_FORMS in turn"""
+    out = []
+    for oi, (sym, op) in enumerate(COMPARISONS):
+        for j in range(per_op):
+            var = r.choice(COMPARISON_VARS)
+            on = sorted(set(df[var].tolist()) | set(nd[var].tolist()))
+            t = r.choice(on)
+            where = "a value of the column"
+            if r.random() < 0.2:
+                t, where = t + 0.5, "a value of the column plus 0.5"
+            form, product = COMPARISON_FORMS[(fi + oi + j * 2) % len(COMPARISON_FORMS)]
+            w = r.choice([v for v in COMPARISON_VARS]) if product else None
+            if product and r.random() < 0.6:
+                w = var
+            comp = f"{var} {sym} {num_lit(t)}"
+            arg = form.format(c=comp, w=w)
+
+            def expected(d, var=var, op=op, t=t, w=w):
+                c = op(d[var], t).astype(float)
+                return list(c if w is None else c * d[w])
+            out.append((arg, expected, {"operator": sym, "column": var, "threshold": t,
+                                        "threshold_is": where}))
+    return out
+
+
+def big_id_column(r, n):
+    """An int64 identifier column with values beyond 2**53 (neighbours differ by 1, so most of them are
+    not binary64 numbers) and the success values tried on it, all written as integer literals:
+    omitted, two values of the column, a value that never occurs next to one that does
+    -> (values, [(success or None, kind)])"""
+    base = r.choice([2 ** 53, -(2 ** 53), 2 ** 53 + 2 ** 20, 2 ** 60, -(2 ** 62) + 2 ** 40, 2 ** 63 - 50])
+    sign = 1 if base > 0 else -1
+    levels = [base + sign * o for o in r.sample(range(0, 12), 4)]
+    xs = [r.choice(levels) for _ in range(n)]
+    for i, l in enumerate(levels):
+        xs[i % n] = l
+    r.shuffle(xs)
+    cases = [(None, "omitted")] + [(v, "present") for v in r.sample(levels, 2)]
+    for v in r.sample(levels, 4):
+        near = [c for c in (v - 1, v + 1, v - 2, v + 2) if c not in levels]
+        if near:
+            cases.append((r.choice(near[:2]), "absent, next to an observed value"))
+            break
+    return xs, cases
+
+
 INT_TYPED_OFFSETS = ("offset(n)", "offset(n * 2)", "offset(s + n)", "offset(kz)", "offset(np.abs(kz))",
                      "offset(k - 1)", "offset(x)", "I(n * 2)")
 
@@ -266,8 +341,10 @@ def explore(tier, seed, res=None, replay=None):
     res = res or Result()
     res.rule = ("generated frames x success values (present, absent, omitted; numeric and string; float "
                 "columns with close values: present, omitted, absent next to an observed value) x "
+                "binary on int64 identifiers beyond 2**53 with integer-literal success values x "
                 "offsets (column, constant, call, integer typed column / expression; new frames as drawn "
-                "and with the numeric dtypes swapped) x trial specifications (column, constant; valid and "
+                "and with the numeric dtypes swapped) x comparisons (< <= > >= == !=) against thresholds "
+                "that occur in the data inside I / {} / offset, alone and times a column x trial specifications (column, constant; valid and "
                 "invalid), at training time and on new frames (prop: also new frames whose successes are "
                 "missing or absent); alias pairs; formulas with two calls of "
                 "one helper differing in a keyword value, in every helper/alias spelling; each frame "
@@ -297,6 +374,8 @@ def explore(tier, seed, res=None, replay=None):
       dfb = df.copy()
       for cname, cvals in fcols.items():
           dfb[cname] = np.array(cvals, dtype=float)
+      big_xs, big_cases = big_id_column(rng_for(seed, "c16", "bigid", fi), len(df))
+      dfb["bigid"] = np.array(big_xs, dtype="int64")
       rsp = rng_for(seed, "c16", "float-spelling", fi)
       fcases = [(c, sv, kind, rsp.choice(["binary", "B"]), rsp.random() < 0.5) for c, sv, kind in fcases]
       ndf = fractional_new_frame(rng_for(seed, "c16", "fractional", fi), nd)
@@ -355,6 +434,23 @@ def explore(tier, seed, res=None, replay=None):
                 column, err = None, type(e).__name__
             xs, s = exact_levels(fcols[var], sv)
             add({"op": "c16_binary", "x": xs, "success": s, "column": column, "err": err or ""}, case)
+        # int64 identifiers beyond 2**53: the success value is the integer the formula spells
+        rbig = rng_for(seed, "c16", "bigid-spelling", fi)
+        for sv, kind in (big_cases if wide else ()):
+            fn = rbig.choice(["binary", "B"])
+            res.evaluations += 1
+            res.count("binary_bigint:" + kind)
+            arg = f"{fn}(bigid)" if sv is None else f"{fn}(bigid, {sv})"
+            case = mk(arg, column="bigid", dtype="int64", values=sorted(set(big_xs)), success=sv,
+                      success_is=kind)
+            try:
+                dm = build(f"y ~ {arg}", dfb)
+                tn = [t for t in dm.common.terms if t != "Intercept"]
+                column, err = [designs.frac(v) for v in col(dm, tn[0])], None
+            except Exception as e:  # noqa
+                column, err = None, type(e).__name__
+            add({"op": "c16_binary", "x": [int(v) for v in big_xs], "success": sv, "column": column,
+                 "err": err or ""}, case)
         # ---- offset / I -------------------------------------------------------------------------
         for arg, fn in (
                 ("offset(z)", lambda d: d["z"]),
@@ -413,6 +509,40 @@ def explore(tier, seed, res=None, replay=None):
                                          "why": f"{arg}: evaluate_new_data raised {type(e).__name__}"})
                     continue
                 add({"op": "c16_column", "expected": [designs.frac(v) for v in list(fn(frame))],
+                     "column": c1}, pcase)
+        # ---- comparisons inside I / {} / offset: thresholds rows sit on -----------------------------
+        rc = rng_for(seed, "c16", "comparison", fi)     # the same cases in both scopes
+        for arg, fn, what in comparison_cases(rc, fi, df, nd, 1 if tier == "quick" else 2):
+            res.evaluations += 1
+            res.count("comparison:" + what["operator"])
+            case = mk(arg, **what)
+            try:
+                dm = build(f"y ~ f + {arg}", df)
+                name = list(dm.common.terms)[-1]          # by position: the label is not judged here
+                c0 = [designs.frac(v) for v in col(dm, name)]
+            except Exception as e:  # noqa
+                res.failures.append({"case": case, "impl": type(e).__name__, "expected": "a column",
+                                     "finding": None, "why": f"{arg} raised {type(e).__name__}"})
+                continue
+            add({"op": "c16_column", "expected": [designs.frac(v) for v in fn(df)], "column": c0},
+                dict(case, when="training"))
+            for tag, frame in (("as drawn", nd), ("dtypes swapped: fractions in n, s, k, kz; int64 x, z", ndf)):
+                if frame is ndf and not wide:
+                    continue
+                pcase = dict(case, when="prediction")
+                if tag != "as drawn":
+                    pcase["new_frame"] = tag
+                    res.evaluations += 1
+                try:
+                    new = dm.common.evaluate_new_data(frame)
+                    c1 = [designs.frac(v) for v in
+                          np.asarray(new[name], dtype=float).reshape(len(frame), -1)[:, 0]]
+                except Exception as e:  # noqa
+                    res.failures.append({"case": pcase, "impl": type(e).__name__, "expected": "a column",
+                                         "finding": None,
+                                         "why": f"{arg}: evaluate_new_data raised {type(e).__name__}"})
+                    continue
+                add({"op": "c16_column", "expected": [designs.frac(v) for v in fn(frame)],
                      "column": c1}, pcase)
         # ---- prop --------------------------------------------------------------------------------
         bad = df.copy()
